@@ -843,6 +843,62 @@ fn det(tier: &str, seed: u64, outdir: &str) {
         }
         *st.by_gen.entry("schedules".into()).or_default() += 1;
     }
+    // (7) value twins: a document with every digit replaced by the next one has the same tree shape
+    // — hence, in a detached source, the same span numbers — but other values (column counts, widths,
+    // counts of anything).  One thread formats the twin and then the document (and then the twin
+    // again): state keyed by position in the tree (a memo of a decision, keyed by span) shows as a
+    // result that differs from the one a fresh thread gives.
+    {
+        let bump = |s: &str| -> String {
+            s.chars().map(|c| if c.is_ascii_digit() { char::from(b'0' + ((c as u8 - b'0') % 9) + 1) } else { c }).collect()
+        };
+        let fresh = |s: String, c: Cfg| -> Result<String, String> {
+            std::thread::Builder::new().stack_size(256 << 20).spawn(move || obs::format(&s, c)).unwrap().join().unwrap_or(Err("panic".into()))
+        };
+        let mut cands: Vec<(String, Cfg)> = vec![];
+        for i in 0..docs.len() {
+            if base[i].is_ok() && docs[i].0.len() < 5000 && docs[i].0.chars().any(|c| c.is_ascii_digit()) {
+                cands.push(docs[i].clone());
+            }
+            if cands.len() >= 60 { break; }
+        }
+        let ntab = if tier == "thorough" { 600 } else { 120 };
+        let mut rt = Rng::new(mix(seed, 0x7A1B));
+        let tu = tab_universe();
+        for _ in 0..ntab {
+            let (src, cfg, _) = tab_case(rt.next() % tu.max(1));
+            cands.push((src, cfg));
+        }
+        let mut pairs = 0u64;
+        for (s, c) in cands.iter() {
+            let t = bump(s);
+            if t == *s || obs::parse(&t).root().erroneous() || obs::parse(s).root().erroneous() { continue; }
+            let (bs, bt) = (fresh(s.clone(), *c), fresh(t.clone(), *c));
+            let (s2, t2, c2) = (s.clone(), t.clone(), *c);
+            let got: (Result<String, String>, Result<String, String>) = std::thread::Builder::new()
+                .stack_size(256 << 20)
+                .spawn(move || {
+                    let _ = obs::format(&t2, c2);
+                    let a = obs::format(&s2, c2);
+                    let b = obs::format(&t2, c2);
+                    (a, b)
+                })
+                .unwrap()
+                .join()
+                .unwrap_or((Err("panic".into()), Err("panic".into())));
+            pairs += 1;
+            st.evaluated += 2;
+            if got.0 != bs {
+                st.failures += 1;
+                fails.push(fail_json("C17", "det", pairs, s, *c, "value-twin", &format!("result differs from the result on a fresh thread when this thread formatted a document of the same shape with other numbers first: {:?}", t), ""));
+            } else if got.1 != bt {
+                st.failures += 1;
+                fails.push(fail_json("C17", "det", pairs, &t, *c, "value-twin", &format!("result differs from the result on a fresh thread when this thread formatted a document of the same shape with other numbers first: {:?}", s), ""));
+            }
+        }
+        st.by_gen.insert("value-twin-pairs".into(), pairs);
+        *st.by_gen.entry("schedules".into()).or_default() += 1;
+    }
     finish(outdir, vec![(st, fails)]);
 }
 
